@@ -79,11 +79,11 @@ Definition no_free_money_integer (v : variant) (c : config) : Prop :=
 Definition wU0 : string := "kira1vverqatnv4erqh6lta047h6lta047h6ljxphls".
 Definition wU1 : string := "kira1vverqatnv4erzh6lta047h6lta047h6lhvk0gt".
 Definition wU4 : string := "kira1vverqatnv4ergh6lta047h6lta047h6lx80v38".
-Definition wcfg : config := mkConfig 1 10 1000.
+Definition wcfg : config := mkConfig 1 10 1000 2419200 100000000000 100000000000000 1000000000000000.
 Definition wst0 : state := mkState 0 [] [] [(wU0, UKEX, 2000000000); (wU1, UKEX, 2000000000)].
 (* reachable through messages: a dApp with one million ukex bonded and fifty LP tokens in circulation *)
 Definition wsetup : list op :=
-  [OCreate wU0 false false "x" 1000000 (mkParams "lp/x" true 10000000000000 0 40 0 wU4); OTick 1000].
+  [OCreate wU0 false false "x" 1000000 (mkParams "lp/x" true 10000000000000 0 40 0 wU4 100 false); OTick 1000].
 Definition wexploit : list op := [KSwap wU1 "x" false 1 0; KRedeem wU1 "x" "lp/x" 1 0].
 
 Lemma integer_witness :
